@@ -296,16 +296,21 @@ class Bes3SymMatrixArrayFactory(Factory):
         return bcpp.Bes3SymMatrixArrayReader(self.name, self.flat_size, self.full_dim)
 
     def make_awkward_content(self, raw_data: np.ndarray):
-        return awkward.contents.NumpyArray(
-            raw_data.reshape(
-                -1,
+        # nested regular arrays (not a NumpyArray with inner dimensions): the matching form can
+        # be projected away by dask-awkward when only other columns are computed
+        return awkward.contents.RegularArray(
+            awkward.contents.RegularArray(
+                awkward.contents.NumpyArray(raw_data.reshape(-1)),
                 self.full_dim,
-                self.full_dim,
-            )
+            ),
+            self.full_dim,
         )
 
     def make_awkward_form(self):
-        return awkward.forms.NumpyForm("float64", inner_shape=[self.full_dim, self.full_dim])
+        return awkward.forms.RegularForm(
+            awkward.forms.RegularForm(awkward.forms.NumpyForm("float64"), self.full_dim),
+            self.full_dim,
+        )
 
 
 uproot_custom.registered_factories |= {
